@@ -581,6 +581,8 @@ pub struct Esds {
     pub asc: Vec<u8>,
     /// number of bytes for each descriptor length (0 = minimal)
     pub len_pad: usize,
+    /// streamPriority (low 5 bits of the byte after ES_ID; the three flag bits stay 0: no optional fields)
+    pub priority: u8,
 }
 
 pub fn enc_esds(e: &Esds) -> Vec<u8> {
@@ -590,7 +592,7 @@ pub fn enc_esds(e: &Esds) -> Vec<u8> {
     let dcd = enc_desc(0x04, &dc.done(), e.len_pad);
     let sl = enc_desc(0x06, &[2], e.len_pad);
     let mut es = W::new();
-    es.u16(e.es_id).u8(0).bytes(&dcd).bytes(&sl);
+    es.u16(e.es_id).u8(e.priority & 0x1f).bytes(&dcd).bytes(&sl);
     let esd = enc_desc(0x03, &es.done(), e.len_pad);
     let mut w = W::new();
     w.full(e.version, e.flags).bytes(&esd);
